@@ -13,6 +13,9 @@ import WzVerif.Lemmas.RoutingConverge
 import WzVerif.Lemmas.RoutingDefaults
 import WzVerif.Lemmas.RoutingAlias
 import WzVerif.Lemmas.RoutingDefaults2
+import WzVerif.Lemmas.RoutingAliasVals
+import WzVerif.Gen.RoutingGlue
+import WzVerif.Props.C04
 namespace Wz.Props.C12
 open Wz Wz.Routing
 
@@ -32,6 +35,83 @@ theorem quote_safe_sets_match_source :
     Gen.Routing.safeSites.contains ("urls.py", "_urlencode", "urlencode", querySafe) = true ∧
     Gen.Routing.usesNetloc = ["http", "https", "ws", "wss"] := by
   decide +kernel
+
+/-- **match_tail_order.** The tail of `StateMachineMatcher.match` in the current source, once `_match`
+has found a rule, is in this order: unpack, `result = {}`, the `to_python` loop (a `ValidationError`
+becomes `NoMatch`), `result.update(rule.defaults)`, the alias test raising
+`RequestAliasRedirect(result, rule.endpoint)`, `return rule, result` — the order of the model's
+`finishMatch` (in particular an alias redirect carries the rule's defaults). -/
+theorem match_tail_order :
+    Gen.RoutingGlue.matchTail = ["unpack", "init", "convert", "defaults", "alias", "return"] := by
+  decide
+
+/-- **redirect_url_assembly_pinned.** `MapAdapter.encode_query_args` and `make_redirect_url` in the current source
+are the statements the model's `encodeQueryArgs` / `makeRedirectUrl` transcribe: a string query is kept as it
+is, a mapping goes to `_urlencode` AS A MAPPING (so multi-valued entries are expanded by `iter_multi_items`);
+the URL is `urlunsplit((bound scheme or 'http', get_host(domain_part), script_name.strip('/') + '/' +
+path_info.lstrip('/'), query, None))`. -/
+theorem redirect_url_assembly_pinned :
+    Gen.RoutingGlue.encodeQueryArgs =
+      ["if not isinstance(query_args, str): return _urlencode(query_args)", "return query_args"] ∧
+    Gen.RoutingGlue.makeRedirectUrl =
+      ["if query_args is None: query_args = self.query_args",
+       "if query_args: query_str = self.encode_query_args(query_args) else: query_str = None",
+       "scheme = self.url_scheme or 'http'",
+       "host = self.get_host(domain_part)",
+       "path = '/'.join((self.script_name.strip('/'), path_info.lstrip('/')))",
+       "return urlunsplit((scheme, host, path, query_str, None))"] := by
+  decide +kernel
+
+/-- **alias_redirect_values_include_defaults.** The values an alias redirect is built from are the
+converted URL values of the alias rule with the rule's own `defaults` merged in: every default of the
+alias rule is among them with its default value (an alias that pins a variable of its canonical rule
+through `defaults`, e.g. `Rule('/archive/millennium', defaults={'year': 2000}, alias=True)`, redirects to
+the canonical URL for that value — not to itself), and every other value is the converted URL value. -/
+theorem alias_redirect_values_include_defaults {root : State} {mg rd : Bool} {q : Req} {dom path : Str}
+    {r : Rule} {vals : List (Str × Value)}
+    (h : matchSM root mg rd q dom path = .aliasRedirect r vals) (hnd : (r.defaults.map (·.1)).Nodup) :
+    r.alias = true ∧ (∀ k v, (k, v) ∈ r.defaults → lookupVal k vals = some v) ∧
+    ∃ vs conv, convertValues r.convs vs = some conv ∧
+      ∀ k, lookupVal k r.defaults = none → lookupVal k vals = lookupVal k conv := by
+  have key : ∀ r0 vs ms wsm, finishMatch rd r0 vs ms wsm = .aliasRedirect r vals →
+      r.alias = true ∧ (∀ k v, (k, v) ∈ r.defaults → lookupVal k vals = some v) ∧
+      ∃ vs conv, convertValues r.convs vs = some conv ∧
+        ∀ k, lookupVal k r.defaults = none → lookupVal k vals = lookupVal k conv := by
+    intro r0 vs ms wsm hf
+    obtain ⟨hr, ha, _, conv, hc, hv⟩ := finishMatch_values.1 r vals hf
+    subst hr
+    subst hv
+    exact ⟨ha, fun k v hkv => lookupVal_dictUpdate_mem _ _ hnd k v hkv, vs, conv, hc,
+      fun k hk => lookupVal_dictUpdate_notin k _ _ hk⟩
+  simp only [matchSM] at h
+  split at h
+  · cases h
+  · exact key _ _ _ _ h
+  · split at h
+    · split at h
+      · cases h
+      · cases h
+      · split at h <;> cases h
+    · cases h
+
+def specsPinned : List RuleSpec :=
+  [ { toks := [.slash, .lit "archive".toList, .slash, .var (.int 0 false none none) "year".toList], endpoint := "archive".toList },
+    { toks := [.slash, .lit "archive".toList, .slash, .lit "millennium".toList], endpoint := "archive".toList, alias := true,
+      defaults := [("year".toList, .int 2000)] } ]
+
+-- non-vacuity: `/archive/millennium` raises the alias redirect with year = 2000, and `MapAdapter.match` redirects
+-- to the canonical URL `/archive/2000` (seeded change C12-c1 made it redirect to itself)
+example : (match mkMap {} specsPinned with
+    | some m =>
+      (match matchSM m.root true true ⟨"GET".toList, false⟩ [] "/archive/millennium".toList with
+       | .aliasRedirect r vals => r.idx == 1 && vals == [("year".toList, Value.int 2000)] && decide ((r.defaults.map (·.1)).Nodup)
+       | _ => false) &&
+      (match matchAdapter m { serverName := "example.org".toList, scriptName := "/".toList, subdomain := some [],
+                              urlScheme := "http".toList, defaultMethod := "GET".toList, queryArgs := .none }
+               "/archive/millennium".toList none .none none with
+       | .redirect u => u == "http://example.org/archive/2000".toList
+       | _ => false)
+    | none => false) = true := by decide +kernel
 
 /-- **slash_redirect_on_bound_host.** The redirect issued for a missing final slash or for merged
 slashes is, character for character: bound scheme, `://`, bound host (`get_host(None)`: nothing
@@ -185,6 +265,52 @@ example : (match mkMap {} specs0 with
         (dfs ⟨"GET".toList, false⟩ m.root (segments [] "/a".toList) []).res.isSlash
     | none => false) = true := by decide +kernel
 
+/-- **slash_redirect_converges.** In one piece, for the matcher: when the search on `path` asks for the slash
+redirect, re-matching the redirect target `path + '/'` (same request) ends the redirecting of that kind —
+`StateMachineMatcher.match` returns a rule (or hands an alias rule to the alias canonicalisation), never
+`RequestPath` again and never `NoMatch`; the rule is one of the map's, fit for the request, and it admits
+the target with exactly the returned values (so, by `C03.match_priority`, it is the most specific rule
+admitting the target: the request now denotes what the map says the slashed path denotes).
+Hypotheses, each shown necessary: `ConvOK` (F12a / F03c: the redirect is decided before `to_python`),
+`SlashDomainOK` (F12b: a rule keeping an empty middle segment), `FinalShape` (what `_parse_rule`
+guarantees; proved for rules without subdomain rule). -/
+theorem slash_redirect_converges {cfg : MapCfg} {specs : List RuleSpec} {m : RMap} (hm : mkMap cfg specs = some m)
+    (hshape : ∀ r ∈ m.rules, FinalShape r.parts) (hdom : ∀ r ∈ m.rules, r.SlashDomainOK) (hconv : ConvOK m.rules)
+    {q : Req} {dom path : Str} (mg rd : Bool) (h : (dfs q m.root (segments dom path) []).res = .slash) :
+    ∃ r vals, r ∈ m.rules ∧ r.spec.buildOnly = false ∧ ruleOK q r = true ∧
+      admits r q dom (path ++ ['/']) = some vals ∧
+      (matchSM m.root mg rd q dom (path ++ ['/']) = .ok r vals ∨
+       matchSM m.root mg rd q dom (path ++ ['/']) = .aliasRedirect r vals) := by
+  have hb := mkMap_built hm
+  obtain ⟨r, vs, hfound, _, _⟩ := slash_redirect_converges_partial2 hm hshape hdom h
+  have hs := dfs_sound q m.root (segments dom (path ++ ['/'])) []
+  rw [hfound] at hs
+  obtain ⟨hok, ps, vs', via, hi, hv, hw, ha⟩ := hs
+  rw [hb.root_eq, inTrie_buildRoot] at hi
+  obtain ⟨hmem, hbo, rfl⟩ := hi
+  simp only [List.nil_append] at hv
+  subst hv
+  have hacc := walkVia_accepts hw
+  rw [hb.kinds r hmem] at hacc
+  have hsome := convertValues_isSome hacc (hconv r hmem)
+  obtain ⟨conv, hconvv⟩ := Option.isSome_iff_exists.1 hsome
+  refine ⟨r, dictUpdate conv r.defaults, hmem, hbo, hok, ?_, ?_⟩
+  · simp [admits, hok, admitsGroups_of_walkVia hw ha, hconvv]
+  · have hfound' := hfound
+    simp only [segments] at hfound'
+    simp only [matchSM, hfound', finishMatch, hconvv]
+    by_cases hal : (r.alias && rd) = true
+    · right; simp [hal]
+    · left; simp [hal]
+
+-- non-vacuity: on `specs0` the path `/a` asks for the slash; the hypotheses hold; `/a/` is matched
+example : (match mkMap {} specs0 with
+    | some m =>
+      (match (dfs ⟨"GET".toList, false⟩ m.root (segments [] "/a".toList) []).res with | .slash => true | _ => false) &&
+      m.rules.all (fun r => r.convTotal) &&
+      (match matchSM m.root true true ⟨"GET".toList, false⟩ [] "/a/".toList with | .ok r _ => r.idx == 0 | _ => false)
+    | none => false) = true := by decide +kernel
+
 def specsF12b : List RuleSpec :=
   [ { toks := [.slash, .var (.string 1 none none) "x".toList, .slash], endpoint := "x".toList },
     { toks := [.slash, .lit "a".toList, .slash, .slash, .slash], endpoint := "a".toList } ]
@@ -259,6 +385,51 @@ theorem defaults_redirect_converges_partial {m : RMap} {a : Adapter} {r : Rule} 
   refine ⟨r0, hr0.1, hep, hbo, suitableFor_defaults hsuit, dom, u, upath, hu, hup, hform, ?_⟩
   intro mg rd q hback
   exact ⟨_, hback, fun n hn hd => rematch_value_nodefault r0 vals n hn hd⟩
+
+/-- the canonical rule `r0` is one whose own URLs match back (the hypotheses of `C04.match_build_partial` for
+the values `vs`): a rule of the grammar without subdomain rule, values in the canonical domain of its
+converters, fit for the request, not an alias, on a map where no other rule admits what it builds -/
+structure MatchesBack (cfg : MapCfg) (m : RMap) (q : Req) (r0 : Rule) (vs : List (Str × Value)) : Prop where
+  notBuildOnly : r0.spec.buildOnly = false
+  bound : ∃ i sp, bindRule cfg i sp = some r0 ∧
+    (if cfg.hostMatching then sp.domain.getD [] else sp.domain.getD cfg.defaultSubdomain) = []
+  gram : GramToks r0.pathToks
+  closed : UrlsClosed r0 vs r0.pathToks
+  dom : ∀ ts, valueTexts r0 vs r0.pathToks = some ts →
+    IsoNoSlash r0.pathToks ts ∧ PathTailOK r0.pathToks ts ∧ AllAccept ((tokConvs r0.pathToks).map Conv.kind) ts
+  roundTrip : VarsRoundTrip r0 vs r0.pathToks
+  fit : ruleOK q r0 = true
+  notAlias : r0.alias = false
+  alone : ∀ u, buildSide r0 vs (traceToks r0.pathToks) = .ok u →
+    ∀ r' ∈ m.rules, r' ≠ r0 → ∀ via, walkVia via r'.parts (segments [] (unquote u)) = none
+
+/-- **defaults_redirect_converges.** In one piece: when `get_default_redirect` redirects the match of rule `r`
+with values `vals`, and the rules of that endpoint are rules whose own URLs match back (`MatchesBack`, the
+domain of C04: grammar rules, canonical values, non-overlapping map), then the percent-decoded path of the
+redirect target is matched by the matcher to the canonical rule `r0` — same endpoint — with `r0`'s defaults
+and, for every variable of `r0` without a default, exactly the value of the original match; and no second
+defaults redirect follows (`defaults_redirect_no_second_partial`). The redirect changes neither endpoint
+nor arguments. -/
+theorem defaults_redirect_converges {cfg : MapCfg} {specs : List RuleSpec} {m : RMap} (hm : mkMap cfg specs = some m)
+    {a : Adapter} {r : Rule} {meth : Str} {vals : List (Str × Value)} {qa : QueryArgs} {url : Str} {q : Req}
+    (hcanon : ∀ r0 ∈ m.rules, r0.endpoint = r.endpoint → MatchesBack cfg m q r0 (dictUpdate vals r0.defaults))
+    (h : getDefaultRedirect m a r meth vals qa (rulesByEndpoint m.rules r.endpoint) = .ok (some url)) :
+    ∃ r0 ∈ m.rules, r0.endpoint = r.endpoint ∧
+      ∃ dom u upath, url = makeRedirectUrl m.cfg.hostMatching a u qa (some dom) ∧
+        buildSide r0 (dictUpdate vals r0.defaults) (traceToks r0.pathToks) = .ok upath ∧
+        (u = upath ∨ ∃ params, u = upath ++ '?' :: params) ∧
+        ∀ (mg rd : Bool), ∃ vals', matchSM m.root mg rd q [] (unquote upath) = .ok r0 vals' ∧
+          (∀ kd ∈ r0.defaults, ∀ v, lookupVal kd.1 vals = some v → kd.2.pyEq v = true) ∧
+          ∀ n ∈ varNames r0.pathToks, lookupVal n r0.defaults = none → lookupVal n vals' = lookupVal n vals := by
+  obtain ⟨r0, hr0, hep, _, hdef, dom, u, upath, hu, hup, hform, hre⟩ := defaults_redirect_converges_partial h
+  have hc := hcanon r0 hr0 hep
+  obtain ⟨i, sp, hbind, hnodom⟩ := hc.bound
+  refine ⟨r0, hr0, hep, dom, u, upath, hu, hup, hform, ?_⟩
+  intro mg rd
+  have hback := Wz.Props.C04.match_build_partial hm hr0 hc.notBuildOnly hbind hnodom (dictUpdate vals r0.defaults)
+    hc.gram hup hc.closed hc.dom hc.roundTrip hc.fit mg rd (by simp [hc.notAlias]) (hc.alone upath hup)
+  obtain ⟨vals', h1, h2⟩ := hre mg rd q hback
+  exact ⟨vals', h1, hdef, h2⟩
 
 def specsDefaults : List RuleSpec :=
   [ { toks := [.slash, .lit "all".toList, .slash], endpoint := "all".toList, defaults := [("page".toList, .int 1)] },
@@ -470,20 +641,14 @@ theorem alias_redirect_same_arguments_false :
     | requestPath p => simp [hsm] at h1
     | noMatch ms w => simp [hsm] at h1
 
--- OPEN (P1): slash_redirect_converges at full strength — "match (p ++ '/') is not again a slash redirect and
--- returns the rule/values the original would have" — is FALSE as it stands (F12b above). Proved: the target
--- is directly admitted by the strict rule that asked for the slash and its search is not `None`, and by
--- C03.match_priority whatever is returned is specificity-minimal among the admitting rules. A `_partial`
--- form excluding a second `SlashRequired` needs the hypothesis that no rule part other than a final empty
--- one admits the empty segment (no `//` left in a rule after merging, no converter accepting ""); that
--- predicate is not carried yet.
--- OPEN (P1): defaults_redirect_converges in one piece. Proved above: the target is the canonical rule's own URL
--- for the same endpoint and (Python-)equal arguments; given that the canonical rule's URLs match back
--- (C04.match_build_partial: rules of the grammar on non-overlapping maps) the re-match denotes the same
--- endpoint and arguments (`defaults_redirect_converges_partial`); and no second defaults redirect follows
--- (`defaults_redirect_no_second_partial`). The alias redirect: `alias_redirect_converges_partial` with both
--- hypotheses shown necessary. Missing: discharging `hback` from the map shape inside C12 (it needs that
--- values produced by `to_python` lie in the canonical domain of `to_url`, e.g. idempotence of the float
--- text normalisation) — validated by stream `redirects`.
+-- Closed in round 3: `slash_redirect_converges` (one piece: the re-match of the target returns / alias-canonicalises a
+-- rule that admits the target with the returned values; hypotheses ConvOK = F12a, SlashDomainOK = F12b, FinalShape)
+-- and `defaults_redirect_converges` (one piece on the domain of C04, `MatchesBack`; non-vacuity of `MatchesBack`'s
+-- fields: the `buildDomainGB` examples of Props/C04 and the documented `/all/page/1` example above).
+-- OPEN: the literal full-strength form of slash_redirect_converges without SlashDomainOK is FALSE (F12b,
+-- `slash_redirect_converges_full_false`); `FinalShape` for rules WITH a subdomain rule (`bindRule_finalShape` covers
+-- rules without); the alias redirect in one piece (`alias_redirect_converges_partial` + `MatchesBack` would
+-- compose the same way; F12c shows the equal-arguments hypothesis is needed); `MatchesBack.roundTrip` for values
+-- produced by `to_python` (idempotence of the float text normalisation) is assumed, validated by stream `redirects`.
 
 end Wz.Props.C12
